@@ -4,6 +4,7 @@ package main
 // so that layout (indentation, key order, line endings, final newline, unrelated fields) is under its control.
 
 import (
+	goversion "go/version"
 	"bytes"
 	"encoding/hex"
 	"encoding/json"
@@ -432,6 +433,9 @@ func genPipfile(r *rand.Rand) gcase {
 				e = jobj{{"editable", true}, {"path", "."}}
 			}
 			listed = false
+		case 1: // not pinned with "==": "this lockfile is not in the format we expect", the entry is skipped
+			e = append(e, jkv{"version", pick(r, []string{"*", ">=" + ver, "~=" + ver, "==", "=", "=" + ver, " ==" + ver})})
+			listed = false
 		default:
 			e = append(e, jkv{"version", "==" + ver})
 			if r.Intn(4) == 0 {
@@ -471,14 +475,6 @@ func decodePkgsLock(b []byte) (string, error) {
 	if err != nil {
 		return "", err
 	}
-	// the entry type ("Direct", "Transitive", "CentralTransitive", "Project") is not part of the extractor's struct: the harness reads it
-	// on its own, for the Spec (a "Project" entry is a project reference, not a NuGet package)
-	var types struct {
-		Dependencies map[string]map[string]struct {
-			Type string `json:"type"`
-		} `json:"dependencies"`
-	}
-	_ = json.Unmarshal(b, &types)
 	fws := make([]string, 0, len(p.Dependencies))
 	for k := range p.Dependencies {
 		fws = append(fws, k)
@@ -493,7 +489,7 @@ func decodePkgsLock(b []byte) (string, error) {
 		sort.Strings(names)
 		xs := make([]string, len(names))
 		for i, k := range names {
-			xs[i] = hexs(k) + ":" + hexs(p.Dependencies[fw][k].Resolved) + ":" + hexs(types.Dependencies[fw][k].Type)
+			xs[i] = hexs(k) + ":" + hexs(p.Dependencies[fw][k].Resolved) + ":" + hexs(p.Dependencies[fw][k].Type)
 		}
 		parts = append(parts, hexs(fw)+"="+strings.Join(xs, ","))
 	}
@@ -697,7 +693,7 @@ func genPoetry(r *rand.Rand) gcase {
 		}
 		lines = append(lines, l.kv("python-versions", ">=3.7"))
 		if r.Intn(3) == 0 {
-			lines = append(lines, "groups = [\"main\", \"dev\"]")
+			lines = append(lines, "groups = "+pick(r, []string{"[\"main\", \"dev\"]", "[\"dev\"]", "[\"docs\", \"test\"]", "[]"}))
 		}
 		if r.Intn(3) == 0 {
 			lines = append(lines, "files = [", "    {file = \"x-1.0-py3-none-any.whl\", hash = \"sha256:"+sha(r)+"\"},", "]")
@@ -745,6 +741,66 @@ func decodeGoMod(b []byte) (string, error) {
 		return strings.Join(xs, ",")
 	}
 	return j(rq) + "|" + j(rp) + "|" + hex.EncodeToString([]byte(gv)) + "|" + hex.EncodeToString([]byte(tc)), nil
+}
+
+// goOlderThan117: the generator's own reading of "go 1.N[.p] is older than go 1.17" (the generated versions are of the form 1.N, 1.N.p, 1.NrcK)
+func goOlderThan117(v string) bool {
+	f := strings.Split(v, ".")
+	if len(f) < 2 || f[0] != "1" {
+		return false
+	}
+	n := 0
+	for _, c := range f[1] {
+		if c < '0' || c > '9' {
+			break
+		}
+		n = n*10 + int(c-'0')
+	}
+	return n < 17
+}
+
+// goSumDoc: what the go.sum branch reads, for the Lean model: `<1: the extractor consults go.sum | 0>|<entries hexname:hexversion,… | ! (a line
+// without three fields: go.sum is ignored) | - (no go.sum)>`; go/version.Compare (trusted) decides the first field.
+func goSumDoc(goMod []byte, files []gfile) string {
+	use := "0"
+	if f, err := modfile.Parse("go.mod", goMod, nil); err == nil {
+		gv := ""
+		if f.Go != nil {
+			gv = f.Go.Version
+		}
+		if f.Toolchain != nil && f.Toolchain.Name != "" {
+			v, _, _ := strings.Cut(f.Toolchain.Name, "-")
+			gv = strings.TrimPrefix(v, "go")
+		}
+		if gv != "" && goversion.Compare("go"+gv, "go1.17") < 0 {
+			use = "1"
+		}
+	}
+	var sum []byte
+	found := false
+	for _, g := range files {
+		if g.path == "go.sum" {
+			sum, found = g.data, true
+		}
+	}
+	if !found {
+		return use + "|-"
+	}
+	var es []string
+	for _, l := range strings.Split(string(sum), "\n") {
+		if l == "" {
+			continue
+		}
+		p := strings.Fields(l)
+		if len(p) != 3 {
+			return use + "|!"
+		}
+		es = append(es, hexs(p[0])+":"+hexs(p[1]))
+	}
+	if len(es) == 0 {
+		return use + "|"
+	}
+	return use + "|" + strings.Join(es, ",")
 }
 
 func num(r *rand.Rand, max int) string { return fmt.Sprint(r.Intn(max)) }
@@ -801,7 +857,7 @@ func genGoMod(r *rand.Rand) gcase {
 	lines = append(lines, "module example.com/m"+pick(r, []string{"", " // the module"}), "")
 	goVer := ""
 	if r.Intn(5) != 0 {
-		goVer = pick(r, []string{"1.17", "1.18", "1.20", "1.21.0", "1.22.3", "1.23rc1", "1.24.0"})
+		goVer = pick(r, []string{"1.17", "1.18", "1.20", "1.21.0", "1.22.3", "1.23rc1", "1.24.0", "1.16", "1.13", "1.16.5", "1.9"})
 		lines = append(lines, "go "+goVer, "")
 	}
 	stdVer := goVer
@@ -901,5 +957,51 @@ func genGoMod(r *rand.Rand) gcase {
 		s += nl
 	}
 	cls := fmt.Sprintf("wf-crlf%v-fin%v-block%v-rep%d", nl == "\r\n", final, block, len(reps))
-	return gcase{format: "gomod", data: []byte(s), expect: exp, known: true, class: cls}
+	c := gcase{format: "gomod", data: []byte(s), expect: exp, known: true, class: cls}
+	// go < 1.17 (the go directive, or the toolchain when there is one): go.mod does not list indirect requirements, the extractor adds the
+	// modules of go.sum (every "<module> <version> h1:…" line; "<version>/go.mod" lines are hashes of go.mod files). Merge by (name, version).
+	if r.Intn(3) != 0 {
+		var sl []string
+		add := func(p, v string) {
+			sl = append(sl, p+" "+v+" h1:"+sha(r)[:40]+"abc=")
+			if r.Intn(4) != 0 {
+				sl = append(sl, p+" "+v+"/go.mod h1:"+sha(r)[:40]+"abc=")
+			}
+		}
+		var sumPk []nv
+		for _, q := range reqs {
+			if r.Intn(3) != 0 {
+				add(q.path, q.ver)
+				sumPk = append(sumPk, nv{q.path, strings.TrimPrefix(q.ver, "v")})
+			}
+		}
+		for k := r.Intn(6); k > 0; k-- {
+			p, v := modReq(r)
+			add(p, v)
+			sumPk = append(sumPk, nv{p, strings.TrimPrefix(v, "v")})
+		}
+		if r.Intn(4) == 0 && len(sl) > 1 {
+			sl = append(sl[:1], append([]string{""}, sl[1:]...)...) // an empty line is skipped
+		}
+		broken := r.Intn(8) == 0
+		if broken && len(sl) > 0 {
+			sl[r.Intn(len(sl))] = "github.com/only/two-fields v1.0.0" // a line without three fields: the whole go.sum is ignored (logged)
+		}
+		sum := strings.Join(sl, "\n")
+		if len(sl) > 0 && r.Intn(4) != 0 {
+			sum += "\n"
+		}
+		c.path = "go.mod"
+		c.files = []gfile{{path: "go.mod", data: c.data}, {path: "go.sum", data: []byte(sum)}}
+		old := stdVer != "" && goOlderThan117(stdVer)
+		if old && !(broken && len(sl) > 0) {
+			c.expect = dedup(append(append([]nv{}, exp...), sumPk...))
+			c.class += "-gosum"
+		} else if old {
+			c.class += "-gosum-broken"
+		} else {
+			c.class += "-gosum-unused"
+		}
+	}
+	return c
 }
